@@ -58,7 +58,13 @@ def gen(rng, tier):
                 ops.append(rng.choice(["Cmp %d %d" % (a, b), "GobEncode %d" % a, "MinPrec %d" % a, "IsInt %d" % a]))
             else:
                 ops.append("%s %d %d" % (rng.choice(["Set", "Neg", "Abs"]), z, a))
-        line = "P %d %d %d %d %d ; " % (nrecv, k, procs, rounds, gc) + " ; ".join([v.item() for v in vs] + ["O " + o for o in ops])
+        # parallel-phase-only operations (not in the L3 store model): Sqrt into a private receiver and text output of shared operands
+        rops = []
+        for _ in range(rng.randint(0, 3)):
+            a = rng.randint(2, 4)
+            rops.append(rng.choice(["Sqrt %d %d" % (rng.randint(0, 1), a), "Text %d %d %d" % (a, rng.choice([101, 102, 103, 98, 112]), rng.choice([-1, -1, 5, 40])),
+                                    "MarshalText %d" % a]))
+        line = "P %d %d %d %d %d ; " % (nrecv, k, procs, rounds, gc) + " ; ".join([v.item() for v in vs] + ["O " + o for o in ops] + ["R " + o for o in rops])
         yield dict(family="shared-operands-k%d" % k, vars=vs, ops=ops, line=line, big=True)
     for c in gen_readers(rng, n):
         yield c
@@ -82,7 +88,13 @@ def gen_readers(rng, n):
             ops.append(rng.choice(["Int %d" % a, "Int %d" % a, "Rat %d" % a, "Int64 %d" % a, "Uint64 %d" % a, "IsInt %d" % a,
                                    "MinPrec %d" % a, "Cmp %d %d" % (a, b), "GobEncode %d" % a, "BitsExp %d" % a, "MantExp %d -" % a,
                                    "Add %d %d %d" % (rng.randint(0, 1), a, b), "Mul %d %d %d" % (rng.randint(0, 1), a, b)]))
-        line = "P 2 %d %d %d %d ; " % (k, procs, rng.choice([1, 2]), rng.randint(0, 1)) + " ; ".join([v.item() for v in vs] + ["O " + o for o in ops])
+        rops = []
+        for _ in range(rng.randint(1, 4)):
+            a = rng.randint(2, 4)
+            rops.append(rng.choice(["Sqrt %d %d" % (rng.randint(0, 1), a), "Sqrt %d %d" % (rng.randint(0, 1), a),
+                                    "Text %d %d %d" % (a, rng.choice([101, 102, 103, 98, 112]), rng.choice([-1, -1, 3, 60])),
+                                    "MarshalText %d" % a, "Float64 %d" % a]))
+        line = "P 2 %d %d %d %d ; " % (k, procs, rng.choice([1, 2]), rng.randint(0, 1)) + " ; ".join([v.item() for v in vs] + ["O " + o for o in ops] + ["R " + o for o in rops])
         yield dict(family="shared-readers-k%d" % k, vars=vs, ops=ops, line=line, big=True)
 
 
